@@ -10,7 +10,7 @@ RULE += (' After the first observation one padding byte (or the signing key obje
 ASSUME = [common.TRUSTED, "SHA-256 collision resistance (two different identities have different hashes)", "crypto/sha256 of the standard library is the independent hash"]
 META = {
     "level": "model_checking",
-    "technique": "bit-level base32/base64 in TLA+ (Text.tla) model-checked as an inverse pair; identity encodings and one-byte variants computed by TLC; hashes, addresses and equality recorded from the library and validated by TLC against stdlib SHA-256 and the TLA+ encodings; a state machine of assignable fields and memoising queries (MC_Cache, two memo negative controls) model-checked by TLC and sampled on the real types by WarmEdit events (query-then-assign against assign-then-query, and against a fresh literal)",
+    "technique": "bit-level base32/base64 in TLA+ (Text.tla) model-checked as an inverse pair; identity encodings and one-byte variants computed by TLC; hashes, addresses and equality recorded from the library and validated by TLC against stdlib SHA-256 and the TLA+ encodings; a state machine of assignable fields and memoising queries (MC_Cache, two memo negative controls) model-checked by TLC and sampled on the real types by WarmEdit events (query-then-assign against assign-then-query, and against a fresh literal); heap machine MC_Fresh (recycled-buffer negative control) sampled by chains of constructed identities (absent / short / full padding) whose serialisations are kept over several rounds and eight goroutines",
     "text": ("Hash, base32 address, base64 form and equality are recomputed outside the library (SHA-256 from the standard library over the raw "
              "input prefix whose length the specification supplies; base32/base64 by TLC at bit level) for every identity shape and for one-byte "
              "perturbations of every region (key, padding, signing key, certificate payload), so a hash that skips padding or certificate "
@@ -20,6 +20,8 @@ META = {
 
 
 def check(run):
+    # who owns the memory behind a result: the machine behind the kept-result chains, the "again" twins and the edited struct copies
+    common.mc_fresh(run, controls=("pool",))
     t = run.tier == "thorough"
     run.mc("MC_Text", consts={"MaxLen": 2, "FullAlpha": True}, invariants=["Inverse", "Shape", "DecoderStrict"], tag="MC_Text_full2")
     run.mc("MC_Text", consts={"MaxLen": 6 if t else 5, "FullAlpha": False}, invariants=["Inverse", "Shape"], tag="MC_Text_alpha")
